@@ -140,6 +140,18 @@ impl Report {
 
         let mut exit = 0;
         let mut replay_paths = vec![];
+        // witnesses of an earlier run with the same (seed, tier) are stale: remove them
+        {
+            let dir = format!("{}/replays/{}", out_dir(), self.property);
+            let prefix = format!("seed{}-{}-", self.seed, self.tier);
+            if let Ok(rd) = std::fs::read_dir(&dir) {
+                for e in rd.flatten() {
+                    if e.file_name().to_string_lossy().starts_with(&prefix) {
+                        let _ = std::fs::remove_file(e.path());
+                    }
+                }
+            }
+        }
         if !unlisted.is_empty() {
             exit = 1;
             let dir = format!("{}/replays/{}", out_dir(), self.property);
